@@ -74,6 +74,23 @@ def run(ctx, res):
              'execs': [{'id': EX + 'exec/E1', 'fun': EX + 'fn/' + fn, 'inputs': ins}]}
         b = copy.deepcopy(a); b['cfg']['udf_source'] = 'udfs_alt.py'
         seqs.append([a, b, copy.deepcopy(a), copy.deepcopy(b)])
+    # directed: a built-in function first used without one of its optional parameters, then with it (and back)
+    GREL_ = 'http://users.ugent.be/~bjdmeest/function/grel.ttl#'
+    MK_ = 'https://github.com/morph-kgc/morph-kgc/function/built-in.ttl#'
+    def tmg(k, v, ck='iri', tt=''):
+        return {'k': k, 'v': v, 'ck': ck, 'tt': tt}
+    def bcase(fun, inputs):
+        return {'cfg': {'nquads': False, 'mode': 'NO'},
+                'sources': [{'key': 'S0', 'kind': 'csv', 'cols': ['id', 'c1', 'c2'], 'rows': [['1', 'Ada', 'Lovelace'], ['2', 'x', 'false'], ['3', 'y', '']]}],
+                'doc': [{'id': EX + 'tm/T', 'src': 'S0', 'nonasserted': False, 'subj': tmg('templ', EX + 'r/{id}'), 'sjoins': [], 'classes': [], 'sgraphs': [],
+                         'poms': [{'preds': [tmg('const', EX + 'p/f')], 'objs': [{'m': tmg('exec', EX + 'exec/E1'), 'lang': None, 'dt': None, 'joins': []}], 'graphs': []}]}],
+                'execs': [{'id': EX + 'exec/E1', 'fun': fun, 'inputs': inputs}]}
+    without = bcase(MK_ + 'concat', [[GREL_ + 'valueParam1', 'ref', 'c1'], [GREL_ + 'valueParam2', 'ref', 'c2']])
+    with_ = bcase(MK_ + 'concat', [[GREL_ + 'valueParam1', 'ref', 'c1'], [GREL_ + 'valueParam2', 'ref', 'c2'], [GREL_ + 'param_string_sep', 'const', '-']])
+    seqs.append([without, with_, copy.deepcopy(without), copy.deepcopy(with_)])
+    cif_without = bcase(MK_ + 'controls_if_cast', [[GREL_ + 'bool_b', 'ref', 'c2'], [GREL_ + 'any_true', 'const', 'yes']])
+    cif_with = bcase(MK_ + 'controls_if_cast', [[GREL_ + 'bool_b', 'ref', 'c2'], [GREL_ + 'any_true', 'const', 'yes'], [GREL_ + 'any_false', 'const', 'no']])
+    seqs.append([cif_without, cif_with, copy.deepcopy(cif_without)])
     jobs_seq, jobs_single, meta, dirs = [], [], [], []
     for si, calls in enumerate(seqs):
         items = []
